@@ -10,7 +10,7 @@
 (*   g     goroutine (runtime goroutine id)        n  fork number             *)
 (*   f     the function of package symbols that made the access               *)
 (*   t     table (acc)   w  write   l  the goroutine really held the table's  *)
-(*         mutex   s  the table's shared flag at that moment                  *)
+(*         mutex   x  ..for writing   s  the table's shared flag at that moment *)
 (*   h     chains handed over: sequence of chains, a chain = sequence of      *)
 (*         <<table, flag>> from a table up to its root.  acc: the chain of t   *)
 (*         the first time t is mentioned (this is how parents are learned);   *)
@@ -97,9 +97,9 @@ TAcc == /\ l <= N /\ Ev.e = "acc"
                sh == [sh0 EXCEPT ![Ev.t] = Ev.s]
                rc == [LReach(h) EXCEPT ![Ev.t] = @ \cup {Ev.g}]
                o == HistOf(Ev.t)
-               un == Ev.s /\ ~Ev.l                                  \* flagged, yet no mutex
                myR == Reads(Ev.f)
                myW == Writes(Ev.f)
+               un == Ev.s /\ ~(IF myW # {} /\ "x" \in DOMAIN Ev THEN Ev.x ELSE Ev.l)     \* flagged, yet not the mutex the access needs
                hits(S, cls) == \E p \in S : p[1] # Ev.g /\ p[2] \in cls      \* another goroutine touched one of cls
                clash == \/ un /\ (hits(o.w, myR \cup myW) \/ hits(o.r, myW))
                         \/ hits(o.uw, myR \cup myW) \/ hits(o.ur, myW)
